@@ -139,7 +139,8 @@ def check_props(pid):
 
 def coqchk(pid):
     rc, out = sh(["timeout", "1500", "coqchk", "-silent", "-o", "-Q", COQ, "Inj", "Inj.Props." + pid], cwd=COQ, timeout=1600)
-    return rc == 0, out
+    clean = all(x in out for x in ("* Axioms: <none>", "type-in-type: <none>", "unsafe (co)fixpoints: <none>", "positivity is assumed: <none>"))
+    return rc == 0 and clean, out
 
 # ------------------------------------------------------------------ extraction + harnesses
 def build_extract():
